@@ -194,6 +194,75 @@ Proof.
       rewrite G, (VT j Hex). unfold vsum_v. destruct old; rewrite ?(vamount_other _ _ _ _ E); lia.
 Qed.
 
+(** the ballot that is stored as the empty string: the record disappears *)
+Lemma vote_delete_inv fx votes results vtotals issue who nv r1 :
+  VoteInvC votes results vtotals ->
+  In issue catalog -> vote_stored_empty issue nv = true ->
+  let old := al_get vkey_eqb (issue, who) votes in
+  let oa := match old with Some o => vt_amount o | None => 0 end in
+  let oc := match old with Some o => vt_cands o | None => [] end in
+  rmap_sub oc oa (result_of results issue) = Some r1 ->
+  VoteInvC (al_del vkey_eqb (issue, who) votes)
+           (al_set N.eqb issue (build_vote_list fx (rmap_add (vt_cands nv) (vt_amount nv) r1)) results)
+           (if is_ex issue then al_set N.eqb issue (Z.abs (getZ issue vtotals - oa + vt_amount nv)) vtotals else vtotals).
+Proof.
+  intros VI Hcat He old oa oc Hsub.
+  unfold vote_stored_empty in He. apply andb_true_iff in He. destruct He as [He Ha]. apply andb_true_iff in He. destruct He as [Hx Hc].
+  apply negb_true_iff in Hx. apply Z.eqb_eq in Ha. destruct (vt_cands nv) as [|c0 cs] eqn:Ec; [|discriminate].
+  rewrite Hx, Ha. cbn [rmap_add].
+  destruct VI as [ND NN ISS TAL RND VT].
+  assert (ND1 : NoDup (map fst r1)) by (eapply rmap_sub_nodup; [apply RND | exact Hsub]).
+  split.
+  - now apply (nodup_al_del vkey_eqb).
+  - intros k v H. apply (al_del_in vkey_eqb) in H. eauto.
+  - intros k v H. apply (al_del_in vkey_eqb) in H. eauto.
+  - intros j c. rewrite result_of_set. unfold tally_spec_v.
+    rewrite (al_sumk_del vkey_eqb vkey_eqb_eq). fold old.
+    destruct (N.eqb j issue) eqn:E.
+    + apply N.eqb_eq in E; subst j.
+      rewrite build_vote_list_get by exact ND1.
+      rewrite (rmap_sub_get _ _ _ _ c Hsub), TAL. unfold tally_spec_v.
+      assert (P : 0 <= al_sumk (vote_contrib issue c) (al_del vkey_eqb (issue, who) votes)).
+      { apply al_sumk_nonneg. intros k v H. apply (al_del_in vkey_eqb) in H. unfold vote_contrib. destruct (N.eqb (fst k) issue); [|lia].
+        apply Z.mul_nonneg_nonneg; [apply countZ_nonneg | eauto]. }
+      rewrite (al_sumk_del vkey_eqb vkey_eqb_eq) in P. fold old in P.
+      subst oa oc. destruct old as [o|]; rewrite ?vote_contrib_same in *; simpl in *; rewrite Z.abs_eq; lia.
+    + assert (E' : N.eqb issue j = false) by (rewrite N.eqb_sym; exact E).
+      rewrite TAL. unfold tally_spec_v. destruct old; rewrite ?(vote_contrib_other _ _ _ _ _ E'); lia.
+  - intros j. rewrite result_of_set. destruct (N.eqb j issue); [now apply build_vote_list_nodup | apply RND].
+  - intros j Hex. unfold vsum_v. rewrite (al_sumk_del vkey_eqb vkey_eqb_eq). fold old.
+    assert (E : N.eqb issue j = false).
+    { destruct (N.eqb issue j) eqn:E; auto. apply N.eqb_eq in E. subst j. congruence. }
+    rewrite (VT j Hex). unfold vsum_v. destruct old; rewrite ?(vamount_other _ _ _ _ E); lia.
+Qed.
+
+(** setVote *)
+Lemma vote_put_inv fx votes results vtotals issue who nv r1 :
+  VoteInvC votes results vtotals ->
+  In issue catalog -> 0 <= vt_amount nv ->
+  let old := al_get vkey_eqb (issue, who) votes in
+  let oa := match old with Some o => vt_amount o | None => 0 end in
+  let oc := match old with Some o => vt_cands o | None => [] end in
+  rmap_sub oc oa (result_of results issue) = Some r1 ->
+  VoteInvC (put_vote issue who nv votes)
+           (al_set N.eqb issue (build_vote_list fx (rmap_add (vt_cands nv) (vt_amount nv) r1)) results)
+           (if is_ex issue then al_set N.eqb issue (Z.abs (getZ issue vtotals - oa + vt_amount nv)) vtotals else vtotals).
+Proof.
+  intros VI Hcat Hnv old oa oc Hsub. unfold put_vote.
+  destruct (vote_stored_empty issue nv) eqn:E.
+  - now apply vote_delete_inv.
+  - now apply vote_update_inv.
+Qed.
+
+Lemma in_put_vote issue who nv votes k v :
+  NoDup (map fst votes) -> In (k, v) (put_vote issue who nv votes) ->
+  (k = (issue, who) /\ v = nv) \/ (k <> (issue, who) /\ In (k, v) votes).
+Proof.
+  intros ND. unfold put_vote. destruct (vote_stored_empty issue nv).
+  - intros H. right. now apply (in_al_del_nodup vkey_eqb vkey_eqb_eq).
+  - now apply (in_al_set_nodup vkey_eqb vkey_eqb_eq).
+Qed.
+
 (* ------------------------------------------------------------------ voteBP / voteDAO *)
 Lemma exec_vote_inv c no d m who issue cands d' m' donated :
   GovInv donated d -> In issue catalog ->
@@ -221,11 +290,11 @@ Proof.
     + rewrite Sst. apply forall_al_set; auto.
     + intros a. unfold bal_of. rewrite Sb. apply MB.
   - unfold VoteInv. rewrite Sv, Sr, Svt.
-    pose proof (vote_update_inv (c_fixed c) (d_votes d) (d_results d) (d_vtotals d) issue who
+    pose proof (vote_put_inv (c_fixed c) (d_votes d) (d_results d) (d_vtotals d) issue who
                   {| vt_cands := cands; vt_amount := st_amount s |} r1 VI Hcat SN) as L.
     cbn [vt_cands vt_amount] in L. apply L. exact Hsub.
   - intros k v H. rewrite Sv in H. rewrite get_stake_stake_of, Sst, stake_of_set.
-    apply (in_al_set_nodup vkey_eqb vkey_eqb_eq) in H; [|apply VI].
+    apply in_put_vote in H; [|apply VI].
     destruct H as [[-> ->]|[Nk H]].
     + cbn [snd vt_amount]. rewrite N.eqb_refl. cbn [st_amount]. lia.
     + specialize (BI k v H). destruct (N.eqb (snd k) who) eqn:E.
